@@ -65,6 +65,13 @@ def r1_hash_after_writes(cx):
                 ok = bool(oc) and all(call_is(tt, r"Seek>::stream_position$") and i == first_ev for i, tt in oc)
                 cx.ob("R1", "R1/%s/origin-provenance@%d" % (name, sorted(dom_start).index(s)), ok, f,
                       "seek(Start(x)) before the hash: x is the stream position taken at entry (origin)", ln=b.ln(s))
+            elif call_is(t, *streams.REWIND):
+                # a creator that was handed a positioned stream (it records the position at entry and works relative to it)
+                # must hash from that position: `rewind()` goes to 0, which is the origin only for a creator that owns its file
+                first_ev = min(ev, key=lambda x: (not b.dominates(x, s), len(b.dom()[x])))
+                has_origin = call_is(b.term(first_ev), r"Seek>::stream_position$")
+                cx.ob("R1", "R1/%s/origin-provenance@%d" % (name, sorted(dom_start).index(s)), not has_origin, f,
+                      "rewind() before the hash is the origin of the pack only when the creator did not record another one at entry", ln=b.ln(s))
         # (iv) buffered writer flushed before the hash
         bufnew = b.calls(r"BufWriter::<.*>::new$")
         if bufnew:
